@@ -204,7 +204,10 @@ theorem segGet_segPut (kvs : Kvs) (m : Name) (old new : Tree) (h : segGet kvs m 
         simp only [lookupK_insertK_same]
         exact subscripts_putSub is v old new h
   · simp only [hb, if_false] at h ⊢
-    simp [lookupK_insertK_same]
+    split at h
+    · simp at h
+    · rename_i w hw
+      simp [replaceK, hw, lookupK_insertK_same]
 
 theorem segPut_same (kvs : Kvs) (m : Name) (v : Tree) (h : segGet kvs m = .ok v) :
     segPut kvs m v = kvs := by
@@ -230,6 +233,7 @@ theorem segPut_same (kvs : Kvs) (m : Name) (v : Tree) (h : segGet kvs m = .ok v)
     · rename_i w hw
       simp only [Except.ok.injEq] at h
       subst h
+      simp only [replaceK, hw, Option.isSome_some, if_true]
       exact insertK_same_val _ _ _ hw
 
 /-! ### literal index segments, and lookup after assignment -/
@@ -481,4 +485,349 @@ theorem getK_setK_same (cfg : Cfg) : ∀ (segs : List Name) (kvs kvs' : Kvs) (tv
                 rw [getK]
                 simp [segGet, hb, lookupK_insertK_same, hrest, ih]
 
+
+/-! ### well-formed trees: a level is a map (no key twice) whose keys satisfy `P`, recursively -/
+
+mutual
+def wfT (P : Name → Bool) : Tree → Bool
+  | .leaf _ => true
+  | .node kvs => wfK P kvs
+  | .list xs => wfL P xs
+def wfK (P : Name → Bool) : Kvs → Bool
+  | [] => true
+  | (k, v) :: r => P k && (lookupK k r).isNone && wfT P v && wfK P r
+def wfL (P : Name → Bool) : List Tree → Bool
+  | [] => true
+  | x :: r => wfT P x && wfL P r
+end
+
+variable {P : Name → Bool}
+
+theorem wfK_cons {k : Name} {v : Tree} {r : Kvs} :
+    wfK P ((k, v) :: r) = true ↔ P k = true ∧ lookupK k r = none ∧ wfT P v = true ∧ wfK P r = true := by
+  simp [wfK, and_assoc]
+
+theorem wfK_lookup {kvs : Kvs} {k : Name} {v : Tree} (h : wfK P kvs = true) (hl : lookupK k kvs = some v) :
+    P k = true ∧ wfT P v = true := by
+  induction kvs with
+  | nil => simp [lookupK] at hl
+  | cons hd tl ih =>
+    obtain ⟨k', v'⟩ := hd
+    obtain ⟨hp, _, hv, hr⟩ := wfK_cons.mp h
+    by_cases hk : k = k'
+    · subst hk; simp [lookupK] at hl; subst hl; exact ⟨hp, hv⟩
+    · simp [lookupK, hk] at hl; exact ih hr hl
+
+theorem wfK_insertK {kvs : Kvs} {k : Name} {v : Tree} (h : wfK P kvs = true) (hk : P k = true)
+    (hv : wfT P v = true) : wfK P (insertK k v kvs) = true := by
+  induction kvs with
+  | nil => simp [insertK, wfK, hk, hv, lookupK]
+  | cons hd tl ih =>
+    obtain ⟨k', v'⟩ := hd
+    obtain ⟨hp, hn, hv', hr⟩ := wfK_cons.mp h
+    by_cases hkk : k = k'
+    · subst hkk
+      simp only [insertK, if_true]
+      exact wfK_cons.mpr ⟨hp, hn, hv, hr⟩
+    · simp only [insertK, hkk, if_false]
+      refine wfK_cons.mpr ⟨hp, ?_, hv', ih hr⟩
+      rw [lookupK_insertK_other _ _ _ _ (fun e => hkk e.symm)]
+      exact hn
+
+theorem wfK_eraseK {kvs : Kvs} {k : Name} (h : wfK P kvs = true) : wfK P (eraseK k kvs) = true := by
+  induction kvs with
+  | nil => simp [eraseK, wfK]
+  | cons hd tl ih =>
+    obtain ⟨k', v'⟩ := hd
+    obtain ⟨hp, hn, hv', hr⟩ := wfK_cons.mp h
+    by_cases hkk : k = k'
+    · subst hkk; simp only [eraseK, if_true]; exact hr
+    · simp only [eraseK, hkk, if_false]
+      refine wfK_cons.mpr ⟨hp, ?_, hv', ih hr⟩
+      rw [lookupK_eraseK_other _ _ _ (fun e => hkk e.symm)]
+      exact hn
+
+theorem wfK_nodup {kvs : Kvs} (h : wfK P kvs = true) : (keysK kvs).Nodup := by
+  induction kvs with
+  | nil => simp [keysK]
+  | cons hd tl ih =>
+    obtain ⟨k', v'⟩ := hd
+    obtain ⟨_, hn, _, hr⟩ := wfK_cons.mp h
+    simp only [keysK, List.map_cons, List.nodup_cons]
+    exact ⟨(lookupK_none_iff _ _).mp hn, ih hr⟩
+
+theorem wfL_listGet : ∀ {xs : List Tree} {j : Nat} {v : Tree}, wfL P xs = true → listGet xs j = some v →
+    wfT P v = true
+  | [], _, _, _, h => by simp [listGet] at h
+  | x :: _, 0, v, hw, h => by
+    simp only [listGet, Option.some.injEq] at h; subst h
+    simp only [wfL, Bool.and_eq_true] at hw; exact hw.1
+  | _ :: r, j + 1, v, hw, h => by
+    simp only [listGet] at h
+    simp only [wfL, Bool.and_eq_true] at hw
+    exact wfL_listGet hw.2 h
+
+theorem wfL_listSet : ∀ {xs : List Tree} {j : Nat} {v : Tree}, wfL P xs = true → wfT P v = true →
+    wfL P (listSet xs j v) = true
+  | [], _, _, _, _ => by simp [listSet, wfL]
+  | _ :: _, 0, _, hw, hv => by
+    simp only [wfL, Bool.and_eq_true] at hw
+    simp [listSet, wfL, hv, hw.2]
+  | _ :: r, j + 1, v, hw, hv => by
+    simp only [wfL, Bool.and_eq_true] at hw
+    simp [listSet, wfL, hw.1, wfL_listSet hw.2 hv]
+
+theorem wfT_subscripts : ∀ {is : List Int} {v w : Tree}, wfT P v = true → subscripts v is = .ok w →
+    wfT P w = true
+  | [], v, w, hv, h => by simp [subscripts] at h; subst h; exact hv
+  | i :: r, v, w, hv, h => by
+    simp only [subscripts] at h
+    split at h
+    · simp at h
+    · rename_i u hu
+      obtain ⟨xs, j, rfl, _, hg⟩ := subscript_ok hu
+      simp only [wfT] at hv
+      exact wfT_subscripts (wfL_listGet hv hg) h
+
+theorem wfT_putSub : ∀ {is : List Int} {v new : Tree}, wfT P v = true → wfT P new = true →
+    wfT P (putSub v is new) = true
+  | [], _, _, _, hn => by simp [putSub, hn]
+  | i :: r, .leaf _, _, hv, _ => by simp [putSub, hv]
+  | i :: r, .node _, _, hv, _ => by simp [putSub, hv]
+  | i :: r, .list xs, new, hv, hn => by
+    simp only [putSub]
+    split
+    · exact hv
+    · split
+      · exact hv
+      · rename_i j _ u hu
+        simp only [wfT] at hv ⊢
+        exact wfL_listSet hv (wfT_putSub (wfL_listGet hv hu) hn)
+
+theorem wfT_segGet {kvs : Kvs} {m : Name} {v : Tree} (h : wfK P kvs = true) (hg : segGet kvs m = .ok v) :
+    wfT P v = true := by
+  unfold segGet at hg
+  split at hg
+  · unfold evalSeg at hg
+    split at hg
+    · simp at hg
+    · split at hg
+      · simp at hg
+      · rename_i w hw
+        exact wfT_subscripts (wfK_lookup h hw).2 hg
+  · split at hg
+    · simp at hg
+    · rename_i w hw
+      simp only [Except.ok.injEq] at hg; subst hg
+      exact (wfK_lookup h hw).2
+
+theorem wfK_replaceK {kvs : Kvs} {k : Name} {v : Tree} (h : wfK P kvs = true) (hv : wfT P v = true) :
+    wfK P (replaceK k v kvs) = true := by
+  unfold replaceK
+  split
+  · rename_i hs
+    obtain ⟨w, hw⟩ := Option.isSome_iff_exists.mp hs
+    exact wfK_insertK h (wfK_lookup h hw).1 hv
+  · exact h
+
+theorem wfK_segPut {kvs : Kvs} {m : Name} {new : Tree} (h : wfK P kvs = true)
+    (hn : wfT P new = true) : wfK P (segPut kvs m new) = true := by
+  unfold segPut
+  split
+  · split
+    · exact h
+    · split
+      · exact h
+      · rename_i w hw
+        have := wfK_lookup h hw
+        exact wfK_insertK h this.1 (wfT_putSub this.2 hn)
+  · exact wfK_replaceK h hn
+
+
+theorem wfK_setK (cfg : Cfg) (hfix : cfg.fixReserved = true) (kvs : Kvs) (segs : List Name)
+    (fin : Option Err) (cv : Except Err Tree) (hw : wfK P kvs = true)
+    (hcv : ∀ tv, cv = .ok tv → wfT P tv = true)
+    (hP : ∀ m ∈ segs, isReserved cfg m = false → ('[' ∉ m ∨ m.getLast? ≠ some ']') → P m = true) :
+    wfK P (setK cfg kvs segs fin cv).1 = true := by
+  fun_induction setK cfg kvs segs fin cv
+  all_goals try (first | exact hw | skip)
+  case case4 kvs m rest fin cv _ hb sub hev sub' e hs ih =>
+    have hsg : segGet kvs m = .ok (.node sub) := by simp [segGet, hb, hev]
+    have hsub : wfK P sub = true := by simpa [wfT] using wfT_segGet hw hsg
+    have := ih hsub hcv (fun x hx => hP x (by simp [hx]))
+    rw [hs] at this
+    exact wfK_segPut hw (by simpa [wfT] using this)
+  case case7 kvs m rest fin cv _ hb hres hl sub' e hs ih =>
+    have := ih (by simp [wfK]) hcv (fun x hx => hP x (by simp [hx]))
+    rw [hs] at this
+    have hr : isReserved cfg m = false := by simpa [hfix] using hres
+    exact wfK_insertK hw (hP m (by simp) hr (Or.inl hb)) (by simpa [wfT] using this)
+  case case8 kvs m rest fin cv _ hb hres sub hl sub' e hs ih =>
+    have hsub := (wfK_lookup hw hl)
+    have := ih (by simpa [wfT] using hsub.2) hcv (fun x hx => hP x (by simp [hx]))
+    rw [hs] at this
+    exact wfK_insertK hw hsub.1 (by simpa [wfT] using this)
+  case case15 kvs m rest fin _ v hb i _ xs hl j _ =>
+    have hsub := (wfK_lookup hw hl)
+    refine wfK_insertK hw hsub.1 ?_
+    simp only [wfT] at hsub ⊢
+    exact wfL_listSet hsub.2 (hcv v rfl)
+  case case18 kvs m rest fin _ v hb hres =>
+    have hr : isReserved cfg m = false := by simpa using hres
+    refine wfK_insertK hw (hP m (by simp) hr ?_) (hcv v rfl)
+    by_cases h : '[' ∈ m
+    · right; intro hl; exact hb ⟨h, hl⟩
+    · left; exact h
+
+/-- every raw key an assignment along `segs` may create satisfies `P` -/
+def KeysOK (P : Name → Bool) (cfg : Cfg) (segs : List Name) : Prop :=
+  ∀ m ∈ segs, isReserved cfg m = false → ('[' ∉ m ∨ m.getLast? ≠ some ']') → P m = true
+
+mutual
+/-- a value whose stored parts are well-formed and whose plain-dict keys create only `P` keys -/
+def valOK (P : Name → Bool) (cfg : Cfg) : PVal → Prop
+  | .tree t => wfT P t = true
+  | .pdict items => itemsOK P cfg items
+def itemsOK (P : Name → Bool) (cfg : Cfg) : List (Name × PVal) → Prop
+  | [] => True
+  | (k, v) :: r => KeysOK P cfg (chain cfg.fixResolve k).segs ∧ valOK P cfg v ∧ itemsOK P cfg r
+end
+
+mutual
+theorem conv_wf (cfg : Cfg) (hfix : cfg.fixReserved = true) :
+    ∀ (v : PVal) (t : Tree), valOK P cfg v → conv cfg v = .ok t → wfT P t = true
+  | .tree t', t, hv, h => by
+    simp only [conv, Except.ok.injEq] at h; subst h; exact hv
+  | .pdict items, t, hv, h => by
+    simp only [conv] at h
+    exact convItems_wf cfg hfix items [] t hv (by simp [wfK]) h
+theorem convItems_wf (cfg : Cfg) (hfix : cfg.fixReserved = true) :
+    ∀ (items : List (Name × PVal)) (acc : Kvs) (t : Tree), itemsOK P cfg items → wfK P acc = true →
+      convItems cfg items acc = .ok t → wfT P t = true
+  | [], acc, t, _, ha, h => by
+    simp only [convItems, Except.ok.injEq] at h; subst h; simpa [wfT] using ha
+  | (k, v) :: r, acc, t, hi, ha, h => by
+    simp only [itemsOK] at hi
+    simp only [convItems] at h
+    split at h
+    · simp at h
+    · rename_i acc' hs
+      have hw := wfK_setK (P := P) cfg hfix acc (chain cfg.fixResolve k).segs (chain cfg.fixResolve k).fin
+        (conv cfg v) ha (fun tv htv => conv_wf cfg hfix v tv hi.2.1 htv) hi.1
+      rw [hs] at hw
+      exact convItems_wf cfg hfix r acc' t hi.2.2 hw h
+end
+
+
+theorem wfT_getK : ∀ (segs : List Name) (kvs : Kvs) (fin : Option Err) (v : Tree), wfK P kvs = true →
+    getK kvs segs fin = .ok v → wfT P v = true
+  | [], kvs, some e, v, _, h => by simp [getK] at h
+  | [], kvs, none, v, hw, h => by simp only [getK, Except.ok.injEq] at h; subst h; simpa [wfT] using hw
+  | m :: rest, kvs, fin, v, hw, h => by
+    rw [getK] at h
+    split at h
+    · simp at h
+    · rename_i target ht
+      have hwt := wfT_segGet hw ht
+      split at h
+      · simp only [Except.ok.injEq] at h; subst h; exact hwt
+      · split at h
+        · simp at h
+        · simp at h
+        · exact wfT_getK rest _ fin v (by simpa [wfT] using hwt) h
+
+theorem wfK_delK (cfg : Cfg) (kvs : Kvs) (segs : List Name) (fin : Option Err) (hw : wfK P kvs = true) :
+    wfK P (delK cfg kvs segs fin).1 = true := by
+  fun_induction delK cfg kvs segs fin
+  all_goals try (first | exact hw | skip)
+  case case6 => exact wfK_eraseK hw
+  case case7 kvs m rest fin _ sub sub' e hs ht ih =>
+    have hsub : wfK P sub = true := by
+      have := wfT_getK _ _ _ _ hw ht
+      simpa [wfT] using this
+    have := ih hsub
+    rw [hs] at this
+    exact wfK_segPut hw (by simpa [wfT] using this)
+
+theorem wfK_popK (kvs : Kvs) (segs : List Name) (fin : Option Err) (hasD : Bool) (hw : wfK P kvs = true) :
+    wfK P (popK kvs segs fin hasD).1 = true := by
+  fun_induction popK kvs segs fin hasD
+  all_goals try (first | exact hw | skip)
+  case case3 => exact wfK_eraseK hw
+  case case7 kvs m rest fin hasD _ sub hl sub' r hs ih =>
+    have hsub := wfK_lookup hw hl
+    have := ih (by simpa [wfT] using hsub.2)
+    rw [hs] at this
+    exact wfK_insertK hw hsub.1 (by simpa [wfT] using this)
+
+/-! #### the API level -/
+
+def wfRoot (P : Name → Bool) (t : Tree) : Prop := ∃ kvs, t = .node kvs ∧ wfK P kvs = true
+
+theorem wfRoot_setT (cfg : Cfg) (hfix : cfg.fixReserved = true) (t : Tree) (k : Name) (v : PVal)
+    (ht : wfRoot P t) (hk : KeysOK P cfg (chain cfg.fixResolve k).segs) (hv : valOK P cfg v) :
+    wfRoot P (setT cfg t k v).1 := by
+  obtain ⟨kvs, rfl, hw⟩ := ht
+  refine ⟨_, rfl, ?_⟩
+  exact wfK_setK cfg hfix kvs _ _ _ hw (fun tv htv => conv_wf cfg hfix v tv hv htv) hk
+
+theorem wfRoot_delT (cfg : Cfg) (t : Tree) (k : Name) (ht : wfRoot P t) : wfRoot P (delT cfg t k).1 := by
+  obtain ⟨kvs, rfl, hw⟩ := ht
+  exact ⟨_, rfl, wfK_delK cfg kvs _ _ hw⟩
+
+theorem wfRoot_popT (cfg : Cfg) (t : Tree) (k : Name) (hasD : Bool) (ht : wfRoot P t) :
+    wfRoot P (popT cfg t k hasD).1 := by
+  obtain ⟨kvs, rfl, hw⟩ := ht
+  exact ⟨_, rfl, wfK_popK kvs _ _ _ hw⟩
+
+theorem wfRoot_setdefaultT (cfg : Cfg) (hfix : cfg.fixReserved = true) (t : Tree) (k : Name) (v : PVal)
+    (ht : wfRoot P t) (hk : KeysOK P cfg (chain cfg.fixResolve k).segs) (hv : valOK P cfg v) :
+    wfRoot P (setdefaultT cfg t k v).1 := by
+  unfold setdefaultT
+  split
+  · exact ht
+  · exact ht
+  · have := wfRoot_setT cfg hfix t k v ht hk hv
+    split
+    · rename_i t' e hs; rw [hs] at this; exact this
+    · rename_i t' hs; rw [hs] at this; exact this
+
+theorem wfRoot_updateT (cfg : Cfg) (hfix : cfg.fixReserved = true) :
+    ∀ (items : List (Name × PVal)) (t : Tree), wfRoot P t → itemsOK P cfg items →
+      wfRoot P (updateT cfg t items).1
+  | [], t, ht, _ => by simpa [updateT] using ht
+  | (k, v) :: r, t, ht, hi => by
+    simp only [itemsOK] at hi
+    have := wfRoot_setT cfg hfix t k v ht hi.1 hi.2.1
+    simp only [updateT]
+    split
+    · rename_i t' e hs; rw [hs] at this; exact this
+    · rename_i t' hs; rw [hs] at this
+      exact wfRoot_updateT cfg hfix r t' this hi.2.2
+
+/-- an operation all of whose keys and values may only create `P` keys -/
+def OpOK (P : Name → Bool) (cfg : Cfg) : Op → Prop
+  | .set k v => KeysOK P cfg (chain cfg.fixResolve k).segs ∧ valOK P cfg v
+  | .setdefault k v => KeysOK P cfg (chain cfg.fixResolve k).segs ∧ valOK P cfg v
+  | .update items => itemsOK P cfg items
+  | _ => True
+
+theorem wfRoot_applyOp (cfg : Cfg) (hfix : cfg.fixReserved = true) (t : Tree) (op : Op)
+    (ht : wfRoot P t) (hop : OpOK P cfg op) : wfRoot P (applyOp cfg t op) := by
+  cases op with
+  | get k => exact ht
+  | contains k => exact ht
+  | set k v => exact wfRoot_setT cfg hfix t k v ht hop.1 hop.2
+  | del k => exact wfRoot_delT cfg t k ht
+  | pop k hasD => exact wfRoot_popT cfg t k hasD ht
+  | setdefault k v => exact wfRoot_setdefaultT cfg hfix t k v ht hop.1 hop.2
+  | update items => exact wfRoot_updateT cfg hfix items t ht hop
+
+theorem wfRoot_run (cfg : Cfg) (hfix : cfg.fixReserved = true) :
+    ∀ (ops : List Op) (t : Tree), wfRoot P t → (∀ op ∈ ops, OpOK P cfg op) → wfRoot P (run cfg t ops)
+  | [], t, ht, _ => by simpa [run] using ht
+  | op :: r, t, ht, h => by
+    simp only [run, List.foldl_cons]
+    exact wfRoot_run cfg hfix r _ (wfRoot_applyOp cfg hfix t op ht (h op (by simp)))
+      (fun o ho => h o (by simp [ho]))
 end Cpppo.Dotdict
